@@ -13,6 +13,7 @@ use std::io::Write;
 fn usage() -> ! {
     eprintln!("usage: bsx drive <scenario> <codec> <seed> <scale> <out.ndjson>");
     eprintln!("       bsx rerun <codec> <ops.ndjson> <out.ndjson>");
+    eprintln!("       bsx replay <behaviours.ndjson|-> <violations.ndjson>");
     std::process::exit(2)
 }
 
@@ -38,6 +39,49 @@ fn main() {
                 writeln!(f, "{l}").unwrap();
             }
             println!("{}", lines.len());
+        }
+        "replay" => {
+            // spec -> impl: execute TLC-generated behaviours, compare with the spec's `out` step by step
+            if args.len() != 4 {
+                usage();
+            }
+            let rd: Box<dyn std::io::BufRead> = if args[2] == "-" {
+                Box::new(std::io::BufReader::new(std::io::stdin()))
+            } else {
+                Box::new(std::io::BufReader::new(std::fs::File::open(&args[2]).unwrap()))
+            };
+            let mut vf = std::io::BufWriter::new(std::fs::File::create(&args[3]).unwrap());
+            let (mut nb, mut ne, mut nm) = (0usize, 0usize, 0usize);
+            let mut distinct = std::collections::HashSet::new();
+            let mut samples: Vec<serde_json::Value> = Vec::new();
+            for line in std::io::BufRead::lines(rd) {
+                let line = line.unwrap();
+                if line.trim().is_empty() {
+                    continue;
+                }
+                let beh: serde_json::Value = serde_json::from_str(&line).unwrap();
+                let evs = beh.as_array().unwrap();
+                let codec = evs.iter().find_map(|e| e.get("c").and_then(|c| c.as_str())).expect("behaviour names no codec").to_string();
+                nb += 1;
+                {
+                    use std::hash::{Hash, Hasher};
+                    let mut h = std::collections::hash_map::DefaultHasher::new();
+                    line.hash(&mut h);
+                    distinct.insert(h.finish());
+                }
+                if samples.len() < 2 && line.len() < 1500 {
+                    samples.push(beh.clone());
+                }
+                let bad = with_codec!(codec.as_str(), A => replay_one::<A>(evs));
+                ne += evs.len();
+                if let Some((idx, observed)) = bad {
+                    nm += 1;
+                    if nm <= 20 {
+                        writeln!(vf, "{}", serde_json::json!({"behaviour": beh, "index": idx, "observed": observed})).unwrap();
+                    }
+                }
+            }
+            println!("{}", serde_json::json!({"behaviours": nb, "events": ne, "mismatches": nm, "distinct": distinct.len(), "samples": samples}));
         }
         "rerun" => {
             // re-execute recorded calls (observations dropped) on the current tree
@@ -76,4 +120,18 @@ fn rerun<A: cx::Cx>(text: &str) -> Vec<String> {
         out.push(world::merge(&ev, obs).to_string());
     }
     out
+}
+
+/// first index (0-based) whose observation differs from the specification's prediction
+fn replay_one<A: cx::Cx>(evs: &[serde_json::Value]) -> Option<(usize, serde_json::Value)> {
+    let mut w = world::World::<A>::new();
+    for (i, e) in evs.iter().enumerate() {
+        let mut op = e.clone();
+        let expected = op.as_object_mut().unwrap().remove("obs").unwrap();
+        let obs = w.exec(&op);
+        if obs != expected {
+            return Some((i, obs));
+        }
+    }
+    None
 }
